@@ -538,6 +538,56 @@ def check_lenient(name, res):
     res.w('lenient_layouts_agree')
 
 
+# --------------------------------------------------------------------- readers do not share anything
+def _tag(st):
+  if isinstance(st, config_parser.BindingStatement):
+    return ('B', st.scope, st.selector, st.arg_name, st.value)
+  if isinstance(st, config_parser.BlockDeclaration):
+    return ('D', st.scope, st.selector)
+  return ('?', type(st).__name__)
+
+
+TWO_TEXTS = {
+    'blocks': ("a/c03.f:\n  x = 1\n  y = 2\nc03.h.q = 0\n", "b/c03.f:\n  x = 10\n\n  y = 20\n  z = 30\n"),
+    'block_and_flat': ("a/c03.f:\n  x = 1\n  y = 2\n", "c03.f.x = 5\nc03.f.y = 6\nc03.f.z = 7\n"),
+    'multiline_value': ("c03.f.x = '''usage:\n# lines starting with a hash are text\n  # indented too\ndone\n'''\nc03.f.y = 2\n",
+                        "c03.f:\n  x = \"\"\"a\n#b\n\"\"\"\n  y = [1,\n  # a real comment\n  2]\n"),
+}
+
+
+def check_two_readers(name, res):
+  """Two texts read in lock step (and a reader created while another is in the middle of a block) hand out exactly the
+  statements each hands out alone; a multi-line string keeps its '#' lines."""
+  desc = ['two_readers', name]
+  a, b = TWO_TEXTS[name]
+  res.case(tuple(desc), True)
+  alone = [[_tag(st) for st in config_parser.ConfigParser(t, Delegate())] for t in (a, b)]
+  pa, pb = iter(config_parser.ConfigParser(a, Delegate())), iter(config_parser.ConfigParser(b, Delegate()))
+  got = [[], []]
+  done = [False, False]
+  while not all(done):
+    for i, p in enumerate((pa, pb)):
+      if not done[i]:
+        try:
+          got[i].append(_tag(next(p)))
+          config_parser.ConfigParser('c03.h.q = 1\n', Delegate())      # a third reader is merely created
+        except StopIteration:
+          done[i] = True
+        except Exception as e:  # pylint: disable=broad-except
+          got[i].append(('raised', repr(e)))
+          done[i] = True
+  if got != alone:
+    res.violation('stream_differs', '%r: read in lock step the two texts give %r, each alone gives %r' % (desc, got, alone), desc)
+    return
+  if name == 'multiline_value':
+    want = 'usage:\n# lines starting with a hash are text\n  # indented too\ndone\n'
+    if alone[0][0][4] != want or alone[1][1][4] != 'a\n#b\n':
+      res.violation('value_changed_by_layout', '%r: multi-line string values read as %r and %r' %
+                    (desc, alone[0][0][4], alone[1][1][4]), desc)
+      return
+  res.w('readers_independent')
+
+
 # --------------------------------------------------------------------- dynamic registration: block form == flat form
 DYNHEAD = 'from __gin__ import dynamic_registration\n'
 DYN_LAYOUT = {
@@ -599,6 +649,9 @@ def run_shard(i, tier):
   for n, name in enumerate(DYN_LAYOUT):
     if (n + 7) % NSH == i:
       check_dyn_layout(name, res)
+  for n, name in enumerate(TWO_TEXTS):
+    if (n + 13) % NSH == i:
+      check_two_readers(name, res)
   harness.hard_reset()
   return res
 
@@ -611,6 +664,8 @@ def replay(desc):
     check_lenient(desc[1], res)
   elif desc[0] == 'dyn_layout':
     check_dyn_layout(desc[1], res)
+  elif desc[0] == 'two_readers':
+    check_two_readers(desc[1], res)
   else:
     check_list(desc[0], 'thorough', res)
   harness.hard_reset()
